@@ -549,6 +549,31 @@ theorem solve_leniently_constrained (nrm : Vec → F) (s : SolveIn) (x : Vec) (h
     obtain ⟨_, _, _, _, _, h1, h2, _⟩ := solve_post nrm s x hA hc h
     exact ⟨h1, h2⟩
 
+/-- Clause "constrained entries exactly equal to their prescribed values", for every way a vector leaves the constrained
+`Matrix.solve`: returned, carried as `ToleranceNotReached.best`, or returned by `solve_leniently`.  The entries are
+*equal* (copied), not computed. -/
+theorem constrain_exact (nrm : Vec → F) (s : SolveIn) (x : Vec) (hA : s.A.length = s.nrows)
+    (hc : ¬ (s.lhs0 = none ∧ s.cons = none ∧ s.rcons = none))
+    (h : solveM nrm s = .ok x ∨ solveM nrm s = .error (.tolNotReached x) ∨ solveLenientM nrm s = .ok x) :
+    x.length = s.ncols ∧ ∀ j q, prescribed s.ncols s.lhs0 s.cons j = some q → x.getD j 0 = q := by
+  rcases h with h | h | h
+  · obtain ⟨_, _, _, _, _, h1, h2, _⟩ := solve_post nrm s x hA hc h
+    exact ⟨h1, h2⟩
+  · obtain ⟨_, _, _, _, _, h1, h2, _⟩ := solve_best_post nrm s x hA hc h
+    exact ⟨h1, h2⟩
+  · exact solve_leniently_constrained nrm s x hA hc h
+
+/-- If the inner solve is exact (`A[I,J] y = (rhs − A lhs)[I]`), the free rows of the full system hold exactly for the
+returned vector `lhs[J] += y`. -/
+theorem constrain_exact_free_rows (J I : List Bool) (A : Mat) (rhs lhs y : Vec)
+    (hJ : J.length = lhs.length) (hI : I.length = A.length) (hr : rhs.length = A.length)
+    (hex : matVec (subMat I J A) y = sel I (vsub rhs (matVec A lhs))) :
+    sel I (vsub rhs (matVec A (scatterAdd J y lhs))) = List.replicate (count I) 0 := by
+  rw [residual_reduced J y lhs hJ I A rhs hI hr, hex, vsub_self]
+  congr 1
+  apply sel_length_count
+  rw [vsub_length _ _ (by simp [matVec, hr])]; omega
+
 /-- A non-finite solver result is never returned. -/
 theorem solver_nonfinite_raises (nrm : Vec → F) (A : Mat) (ncols : Nat) (b : Vec) (atol rtol : F) (xs : List F)
     (hx : toRat? xs = none) : ∀ x, solverM nrm A ncols b atol rtol (.vec xs) = .ok x → x = b.map (fun _ => 0) := by
